@@ -258,13 +258,15 @@ class Inst:
             num = world.num_of.get(job.id)
             if g is not None:
                 g.pause(('delete', num))
-            r = orig_delete(job)
-            if g is not None:
-                g.ptr += 1
-                for h in world.holders:
-                    if h['thread'] is g and h['job'] == num and h['end'] is None:
-                        h['end'], h['end_at'] = 'deleted', CLOCK[0]
-            return r
+            try:
+                return orig_delete(job)
+            finally:
+                # the capturer is done with the job now, whether or not the row was still there
+                if g is not None:
+                    g.ptr += 1
+                    for h in world.holders:
+                        if h['thread'] is g and h['job'] == num and h['end'] is None:
+                            h['end'], h['end_at'] = 'deleted', CLOCK[0]
 
         s._capture_scheduled_job = capture
         s._invoke_job = invoke
@@ -475,8 +477,8 @@ class World:
     def op_mstart(self, k):
         inst, fn, args = self.pool.pop(k)
         g = Gated(inst, lambda: fn(*args), 'mem')
-        at = g.resume()
-        if at[0] == 'invoke':
+        g.resume()
+        if not g.finished():
             self.workers.append(g)
         self.msteps.append('MemStart %s' % coq_nat(k))
 
